@@ -11,8 +11,9 @@
         routes alone (an implementation whose rejected Handle leaves nothing behind is as good);
         Handle accepts exactly what [accepts] says;
       - W.Status is 0 at handler entry;
-      - GetID() is [prefix ++ base36(t)] with t >= 1, different from every id seen before in the
-        history, and over the whole history t <= number of requests;
+      - GetID() is an opaque byte string different from every id seen before in the history
+        (how it is laid out is the implementation's business; the model's prefix ++ base-36 ticket
+        and the proof that those are distinct below 2^64 stay in the model, C05_ids_unique);
       - constant during the request: at handler exit and in the relay after the handler, who / every
         RouteParam / RouteParamAny / GetID are what they were at entry, and W.Status is what was
         read back after the request's own last action on its writer (an [EvWrite]: the harness
@@ -35,28 +36,6 @@ Inductive ev :=
 | EvAfter (k : nat) (how : exit_kind) (o : cobs).       (* ... and again by the relay after the handler returned or
                                                            while its panic unwinds; then ServeHTTP resets / drops the Store *)
 
-(** ** ids *)
-Definition undigit (c : N) : option N :=
-  if ((48 <=? c) && (c <=? 57))%N then Some (c - 48)%N
-  else if ((97 <=? c) && (c <=? 122))%N then Some (c - 87)%N
-  else None.
-Fixpoint parse36 (l : list N) (acc : N) : option N :=
-  match l with
-  | [] => Some acc
-  | c :: r => match undigit c with Some d => parse36 r (acc * 36 + d)%N | None => None end
-  end.
-(** the ticket of an id: [Some t] iff id = prefix ++ AppendUint(t, 36) with t >= 1 (no leading zeros) *)
-Definition id_ticket (prefix id : list N) : option N :=
-  if bytes_eqb (firstn 9 id) prefix && (9 <? length id) then
-    match parse36 (skipn 9 id) 0%N with
-    | Some t => if (1 <=? t)%N && bytes_eqb (render_id t) (skipn 9 id) then Some t else None
-    | None => None
-    end
-  else None.
-
-Fixpoint mem_N (x : N) (l : list N) : bool :=
-  match l with [] => false | y :: r => (x =? y)%N || mem_N x r end.
-
 (** ** replay state *)
 Record rstate := {
   r_mux : mux;                          (* the model, rejected registrations leaving their nodes behind (what HEAD does) *)
@@ -67,10 +46,11 @@ Record rstate := {
                                            [Some false] nothing kept, [None] no request has told them apart yet *)
   r_routes : list (list N * list N);    (* specification: routes accepted so far *)
   r_ghosts : list (list pseg);          (* ... and what the rejected attempts left behind *)
-  r_tickets : list N;                   (* tickets of all ids seen so far *)
+  r_ids : list (list N);                (* every id seen so far in this history (opaque byte strings) *)
   r_entry : list (nat * cobs);          (* requests in flight: what they read at entry, status updated by their own writes *)
   r_begins : N;                         (* number of requests begun *)
-  r_rejects_more : nat                  (* registrations the implementation rejected although the specification accepts them *)
+  r_rejects_more : nat;                 (* registrations the implementation rejected although the specification accepts them *)
+  r_id_differs : bool                   (* some id is not laid out as the model's prefix ++ base36(ticket): tolerated, counted *)
 }.
 
 Fixpoint assoc_nat (k : nat) (l : list (nat * cobs)) : option cobs :=
@@ -120,9 +100,19 @@ Definition model_agrees (sequential : bool) (m : mux) (k : nat) (names : list (l
     && opt_list_eqb (ob_vals mo) (co_vals o)
     && match ob_any mo with Some a => bytes_eqb a (co_any o) | None => false end
     && (ob_status mo =? co_status o)%N
-    && (if sequential then bytes_eqb (ob_id mo) (co_id o) else true)
   | None => false
   end.
+
+(** the implementation's id is laid out like the model's (prefix ++ base-36 ticket, tickets in the order of the B events);
+    only meaningful when the B events are in ticket order.  A different layout is NOT an error: the property wants ids
+    that are unique within the Mux and constant during the request, nothing about how they look. *)
+Definition model_id_same (sequential : bool) (m : mux) (k : nat) (o : cobs) : bool :=
+  if sequential then
+    match observe m k [] with
+    | Some mo => bytes_eqb (ob_id mo) (co_id o)
+    | None => true
+    end
+  else true.
 
 Definition mstep (ok : bool) (m : mux) (l : label) (after : mux -> bool) : mux * bool :=
   if ok then
@@ -135,8 +125,8 @@ Definition mstep (ok : bool) (m : mux) (l : label) (after : mux -> bool) : mux *
 (** one event: [None] = the specification fails here *)
 Definition mk (s : rstate) (mr mc : mux * bool) (entry : list (nat * cobs)) : rstate :=
   {| r_mux := fst mr; r_model_ok := snd mr; r_mux_c := fst mc; r_model_ok_c := snd mc; r_variant := r_variant s;
-     r_routes := r_routes s; r_ghosts := r_ghosts s; r_tickets := r_tickets s;
-     r_entry := entry; r_begins := r_begins s; r_rejects_more := r_rejects_more s |}.
+     r_routes := r_routes s; r_ghosts := r_ghosts s; r_ids := r_ids s;
+     r_entry := entry; r_begins := r_begins s; r_rejects_more := r_rejects_more s; r_id_differs := r_id_differs s |}.
 (** the same label in both models *)
 Definition both (s : rstate) (l : label) (after : mux -> bool) : (mux * bool) * (mux * bool) :=
   (mstep (r_model_ok s) (r_mux s) l after, mstep (r_model_ok_c s) (r_mux_c s) l after).
@@ -166,8 +156,8 @@ Definition check_ev (prefix : list N) (sequential : bool) (names : list (list N)
       (* a stricter implementation: the property is about the routes that WERE registered; specification and both
          models follow the implementation's decision (the route is simply not there) *)
       Some {| r_mux := r_mux s; r_model_ok := r_model_ok s; r_mux_c := r_mux_c s; r_model_ok_c := r_model_ok_c s;
-              r_variant := r_variant s; r_routes := r_routes s; r_ghosts := r_ghosts s; r_tickets := r_tickets s;
-              r_entry := r_entry s; r_begins := r_begins s; r_rejects_more := S (r_rejects_more s) |}
+              r_variant := r_variant s; r_routes := r_routes s; r_ghosts := r_ghosts s; r_ids := r_ids s;
+              r_entry := r_entry s; r_begins := r_begins s; r_rejects_more := S (r_rejects_more s); r_id_differs := r_id_differs s |}
     else
       let acc (t : table) := match handle t p m with Some _ => true | None => false end in
       let mr := mstep (r_model_ok s) (r_mux s) (LRegister p m) (fun _ => Bool.eqb (acc (m_table (r_mux s))) accepted) in
@@ -178,7 +168,7 @@ Definition check_ev (prefix : list N) (sequential : bool) (names : list (list N)
               r_routes := if accepted then r_routes s ++ [(p, m)] else r_routes s;
               r_ghosts := if accepted then r_ghosts s
                           else match ghost_of (p, m) with Some g => r_ghosts s ++ [g] | None => r_ghosts s end;
-              r_tickets := r_tickets s; r_entry := r_entry s; r_begins := r_begins s; r_rejects_more := r_rejects_more s |}
+              r_ids := r_ids s; r_entry := r_entry s; r_begins := r_begins s; r_rejects_more := r_rejects_more s; r_id_differs := r_id_differs s |}
   | EvBegin k path method o =>
     let seen := {| o_who := co_who o; o_any := co_any o; o_vals := co_vals o |} in
     let is_g := obs_eqb (spec_obs_g (r_routes s) (r_ghosts s) names path method) seen in
@@ -192,17 +182,19 @@ Definition check_ev (prefix : list N) (sequential : bool) (names : list (list N)
                 else if is_c then Some (Some false)
                 else None
       end in
-    match variant', id_ticket prefix (co_id o) with
-    | Some v, Some t =>
-      if (co_status o =? 0)%N && negb (mem_N t (r_tickets s))
+    match variant' with
+    | Some v =>
+      (* the id: an opaque byte string that no other request of this Mux has had *)
+      if (co_status o =? 0)%N && negb (mem_bytes (co_id o) (r_ids s))
       then
         let (mr, mc) := both s (LBegin k (lifo_choice (r_mux s)) path method)
                              (fun m' => model_agrees sequential m' k names o) in
         Some {| r_mux := fst mr; r_model_ok := snd mr; r_mux_c := fst mc; r_model_ok_c := snd mc; r_variant := v;
-                r_routes := r_routes s; r_ghosts := r_ghosts s; r_tickets := t :: r_tickets s;
-                r_entry := (k, o) :: r_entry s; r_begins := (r_begins s + 1)%N; r_rejects_more := r_rejects_more s |}
+                r_routes := r_routes s; r_ghosts := r_ghosts s; r_ids := co_id o :: r_ids s;
+                r_entry := (k, o) :: r_entry s; r_begins := (r_begins s + 1)%N; r_rejects_more := r_rejects_more s;
+                r_id_differs := r_id_differs s || negb (model_id_same sequential (fst mr) k o) |}
       else None
-    | _, _ => None
+    | None => None
     end
   | EvWrite k code =>
     match assoc_nat k (r_entry s) with
@@ -254,26 +246,24 @@ Definition residue_differs (s : rstate) : bool :=
 Definition stricter (s : rstate) : bool := match r_rejects_more s with O => false | _ => true end.
 
 Fixpoint check_evs (prefix : list N) (sequential : bool) (names : list (list N)) (s : rstate) (evs : list ev) (i : nat)
-  : verdict * nat * (bool * bool) :=
+  : verdict * nat * (bool * bool * bool) :=
   match evs with
   | [] =>
-    (* over the whole history every ticket is at most the number of requests *)
-    if forallb (fun t => (t <=? r_begins s)%N) (r_tickets s)
-    then (if model_verdict s then (VOk, 0, (residue_differs s, stricter s)) else (VMismatch, 0, (residue_differs s, stricter s)))
-    else (VSpecFail, i, (false, false))
+    if model_verdict s then (VOk, 0, (residue_differs s, stricter s, r_id_differs s))
+    else (VMismatch, 0, (residue_differs s, stricter s, r_id_differs s))
   | e :: rest =>
     match check_ev prefix sequential names s e with
     | Some s' => check_evs prefix sequential names s' rest (S i)
-    | None => (VSpecFail, i, (false, false))
+    | None => (VSpecFail, i, (false, false, false))
     end
   end.
 
 Definition check_history (prefix : list N) (sequential : bool) (names : list (list N)) (evs : list ev)
-  : verdict * nat * (bool * bool) :=
+  : verdict * nat * (bool * bool * bool) :=
   check_evs prefix sequential names
             {| r_mux := new_mux prefix; r_model_ok := true; r_mux_c := new_mux prefix; r_model_ok_c := true; r_variant := None;
-               r_routes := []; r_ghosts := []; r_tickets := []; r_entry := []; r_begins := 0%N; r_rejects_more := 0 |} evs 0.
+               r_routes := []; r_ghosts := []; r_ids := []; r_entry := []; r_begins := 0%N; r_rejects_more := 0; r_id_differs := false |} evs 0.
 
 (** third component: (dispatch followed the clean specification where HEAD's residue would have shown,
-    Handle rejected registrations the specification accepts) — both tolerated *)
-Definition history_ok (v : verdict * nat * (bool * bool)) : bool := match fst (fst v) with VOk => true | _ => false end.
+    Handle rejected registrations the specification accepts, ids are laid out differently from the model's) — all tolerated *)
+Definition history_ok (v : verdict * nat * (bool * bool * bool)) : bool := match fst (fst v) with VOk => true | _ => false end.
